@@ -6,6 +6,8 @@ mod gen {
     pub mod voice;
 }
 mod oracle {
+    pub mod dense;
+    pub mod dsp;
     pub mod reader;
 }
 mod props;
